@@ -39,6 +39,21 @@ def jobs_for(tier, rng):
                 pi.append(job)
             else:
                 vi.append(job)
+    # action spaces beyond small integer type limits (more than 256 actions)
+    for k, na in enumerate([257, 300] if tier == "quick" else [257, 300, 513, 1000]):
+        for kind in ("VI", "SAVI", "PI"):
+            m = gen.union(rng, 2, PD=1, na=na, ne=1, rmax=9, chain=False, plain=True)
+            # make high action indices attractive so that the greedy action index exceeds 255
+            for s_ in range(m["ns"]):
+                for a in range(na):
+                    m["rew"][s_][a] = [(a * 7 + s_) % 10 + (5 if a > 256 else 0)]
+            job = {"mdp": m, "kind": kind, "gamma": [1, 2], "eps": [1, 1], "test": "span", "calls": [40], "cert": True,
+                   "mbs": 1024, "tag": f"{kind}-na{na}"}
+            if kind == "PI":
+                job["max_eval_iter"] = 30
+                pi.append(job)
+            else:
+                vi.append(job)
     return vi, pi
 
 
